@@ -38,6 +38,8 @@ def nontrivial(engine, opline):
         return bool(t) and t[0] == 'tree'
     if engine == 'erc20':
         return bool(t) and t[0] in ('erc', 'esend')
+    if engine == 'staking':
+        return bool(t) and t[0] == 'stk'
     if engine == 'vauth':
         return bool(t) and t[0] == 'vsubmit'
     if engine == 'ante':
@@ -169,16 +171,31 @@ PROPS['C10'] = dict(
 
 CALLTREE_RULE = 'generated call trees (depth <= 4, 1-3 actions per frame, CALL/STATICCALL/DELEGATECALL/CALLCODE edges between two scripted runner contracts, returning and reverting frames, ERC-20 precompile calls of 6 methods over two tokens at every depth; a quarter of the trees entirely under one STATICCALL frame) through EvmKeeper.ApplyMessage and the real interpreter; all balances, supplies, allowances and the log list compared after each tree; non-trivial = every tree line; distinct by op-line hash'
 PROPS['C12'] = dict(
-    lean_modules=['Model.Erc20', 'Model.CallTree', 'Properties.C10', 'Properties.C12', 'Facts.Cpc'],
+    lean_modules=['Model.Erc20', 'Model.CallTree', 'Properties.C10', 'Properties.C12', 'Facts.Cpc', 'Model.StakingCpc', 'Facts.Staking'],
     facts=['*'],
     theorems=['C12_direct_static_refused', 'C12_views_never_write', 'C12_full_fails', 'C12_static_partial', 'execAct_guarded', 'execList_guarded',
               'C03_reverted_frame_no_trace', 'C12_ro_no_write', 'C12_rw_gas', 'C12_writers_declared', 'fact_fork_readonly_literals',
-              'fact_fork_runcustom_guard', 'fact_selectors_match_abi', 'fact_erc20_iswrite'],
-    engines=[dict(name='calltree', test='TestEngineCalltree', quick=400, thorough=8000, thorough_seeds=3)],
-    rule=CALLTREE_RULE,
+              'fact_fork_runcustom_guard', 'fact_selectors_match_abi', 'fact_erc20_iswrite', 'fact_staking_reward_queries'],
+    engines=[dict(name='calltree', test='TestEngineCalltree', quick=400, thorough=8000, thorough_seeds=3),
+             dict(name='staking', test='TestEngineStaking', quick=300, thorough=4000, thorough_seeds=2)],
+    rule=CALLTREE_RULE + '; E-staking: every store of the application is dumped before and after each view call of the staking precompile (delegationOf, totalDelegationOf, rewardOf, rewardsOf, balanceOf, delegatedValidators) executed with commit = true',
     assumptions=['the interpreter (opcode semantics, 63/64 gas rule, read-only flag for LOG/SSTORE/value transfers) is the shared fork code, not modelled; the runner gives every call half of the remaining gas so that gas never decides an outcome',
                  'staking / bech32 methods enter through the regenerated method table (read-only => no write API reachable; writers => gas > 0; selector = ABI id), not through the call-tree model',
                  'the write census is syntactic (callee names over the package-local call graph)'],
+)
+
+PROPS['C11'] = dict(
+    lean_modules=['Model.StakingCpc', 'Properties.C11', 'Facts.Staking'],
+    facts=['*'],
+    theorems=['C11_caller_only', 'C11_signed', 'C11_signed_withdraw', 'C11_signed_same_native', 'C11_transfer_self_only', 'C11_logs_exact',
+              'C11_no_event_fails', 'C11_logs_name_delegator', 'fact_staking_executors', 'fact_staking_reward_queries'],
+    engines=[dict(name='staking', test='TestEngineStaking', quick=500, thorough=6000, thorough_seeds=3)],
+    rule='random sequences of staking-precompile calls (delegate / undelegate / redelegate / withdrawReward / withdrawRewards / transfer / delegateByActionMessage / withdrawRewardsByMessage; callers: three EOAs, a contract forwarding by CALL, a contract forwarding by DELEGATECALL; validators incl. a non-validator address; amounts 0, 1.., exact, exact+1, half; signatures honest, v+27, replayed by another caller, for another chain id, by another key, tampered amount / validator / s, bad denom) interleaved with native MsgDelegate, reward allocation and block progression (unbonding time 3 h, 1 h blocks: entries mature); every call runs through EvmKeeper.ApplyMessage(commit) on one cache context and the native message named by the specification through the SDK message servers on a second cache of the same state; staking, distribution and bank stores compared byte for byte (withdraw-all / transfer: staking + bank byte for byte, pending rewards / outstanding / commission / community pool by value), success compared, logs compared with the model translation of the native run\'s module events; view methods compared with the native gRPC queriers; non-trivial = every call line; distinct by op-line hash',
+    assumptions=['x/staking and x/distribution themselves are not modelled: the model fixes which native message (delegator, validators, amount) the precompile hands to them; their effect is whatever the SDK does (twin execution)',
+                 'secp256k1 recovery and the EIP-712 hash are the library functions (the harness signs typed data it builds itself with go-ethereum signer/core/apitypes); in the model the recovered address is an input',
+                 'withdrawRewards / transfer evaluate the distribution query on the live context: validator period counters and historical-reward records differ from the native run; delegations, entries, balances, pending rewards, outstanding rewards, commission and community pool are compared and agree',
+                 'slashing-free histories (as the property states); contracts reach the precompile through one forwarding frame (deeper trees are C12 / E-calltree)'],
+    technique='Lean 4 theorems over a hand-written dispatch model (who acts for whom, which logs) + regenerated per-executor AST facts + twin execution of the real precompile against the SDK message servers',
 )
 
 PROPS['C17'] = dict(
